@@ -276,8 +276,7 @@ def run_client(case):
         r = loop.run_until(secs(FAR))
         obs['stop'] = r
         obs['app_done'] = task.done()
-        obs['ops'] = [dict(x) for x in obs['ops']]         # snapshot: the teardown cancels what is pending
-        obs['exit'] = dict(obs['exit']) if obs['exit'] else None
+
         obs['unhandled'] = len(loop.unhandled)
         obs['armed_end'] = len(deadline_timers(loop))
         obs['clock'] = loop.time()
@@ -287,8 +286,10 @@ def run_client(case):
                     obs['frames'].append((ticks_of(fr.time), dict(fr.headers).get('grpc-timeout'),
                                           sum(1 for k, _ in fr.headers if k == 'grpc-timeout')))
                     break
+        import copy
+        final = copy.deepcopy(obs)          # snapshot: the teardown below cancels what is still pending
         task.cancel()
-    return obs
+    return final
 
 
 # -------------------------------------------------------------------------------------------------
